@@ -9,7 +9,7 @@ What is modelled, and where it comes from:
 
 * `decodeLatin1` (`decode_iso_8859_1`, text_metadata.rs:157-159), `encodeLatin1`
   (`encode_iso_8859_1*`, :161-175), `decodeAscii` (`decode_ascii`, :177-185);
-* `TEXt.decode`/`ZTXt.decode`/`ITXt.decode` (:199-211, :258-275, :401-445) — the checks in the order of
+* `TEXt.decode`/`ZTXt.decode`/`ITXt.decode` (:199-211, :263-280, :411-455) — the checks in the order of
   the Rust code; `splitKeyword`, `parseTEXt`, `parseZTXt`, `parseITXt`
   (stream.rs:1689-1700, :1702-1715, :1717-1736, :1738-1783) — the field splitting done by the
   streaming decoder before calling `decode`.  (`limits.reserve_bytes(buf.len())`, the first statement
@@ -17,12 +17,12 @@ What is modelled, and where it comes from:
   this model; a chunk that is refused for that reason never reaches the code modelled here.  Likewise a
   text chunk of length zero never reaches `parse_chunk` at all — `ReadChunkData` with nothing
   remaining goes straight to the CRC, stream.rs:741-744 — and is skipped without an error.)
-* `TEXt.encodeBody`/`ZTXt.encodeBody`/`ITXt.encodeBody` (`EncodableTextChunk::encode`, :214-229,
-  :339-372, :513-582): the chunk *data* handed to `encoder::write_chunk` (length, type and CRC
+* `TEXt.encodeBody`/`ZTXt.encodeBody`/`ITXt.encodeBody` (`EncodableTextChunk::encode`, :214-234,
+  :344-382, :523-600): the chunk *data* handed to `encoder::write_chunk` (length, type and CRC
   are C12's business);
-* the private `OptCompressed` state (`Compressed(Vec<u8>) | Uncompressed(String)`, :240-247) with
-  `decompress_text_with_limit`, `get_text`, `compress_text` of `ZTXtChunk` (:283-336) and `ITXtChunk`
-  (:453-510).  The two Rust copies differ only in the text coding (Latin-1 for zTXt, UTF-8 for iTXt);
+* the private `OptCompressed` state (`Compressed(Vec<u8>) | Uncompressed(String)`, :245-252) with
+  `decompress_text_with_limit`, `get_text`, `compress_text` of `ZTXtChunk` (:288-341) and `ITXtChunk`
+  (:463-520).  The two Rust copies differ only in the text coding (Latin-1 for zTXt, UTF-8 for iTXt);
   the model has one machine `OptC.*` parameterised by a `Coding` and the two instances
   `latin1Coding`, `utf8Coding`.  `&mut self` operations return the new state *and* the result,
   so "an error leaves the chunk unchanged" is a theorem and not true by construction.
@@ -60,7 +60,7 @@ inductive TextEncErr
 
 /-- `DECOMPRESSION_LIMIT` (text_metadata.rs:108) -/
 def decompressionLimit : Nat := 2097152
-/-- the keyword bound used at text_metadata.rs:203, 219, 263, 343, 409, 518 and stream.rs:1695 -/
+/-- the keyword bound used at text_metadata.rs:203, 219, 268, 348, 419, 528 and stream.rs:1695 -/
 def maxKeywordLen : Nat := 79
 
 /-! ## ISO 8859-1 -/
@@ -86,7 +86,8 @@ def encodeLatin1 (s : String) : Except TextEncErr Bytes := encodeLatin1L s.toLis
 def IsLatin1 (s : String) : Prop := ∀ c ∈ s.toList, c.toNat ≤ 255
 
 /-- specification: the string does not contain U+0000 (PNG keywords, language tags and translated
-keywords are NUL-terminated in the file; defect D16: the crate never checks this) -/
+keywords are NUL-terminated in the file; the three `encode` functions refuse a string that does —
+the repair of defect D16) -/
 def NulFree (s : String) : Prop := ∀ c ∈ s.toList, c.toNat ≠ 0
 
 instance (s : String) : Decidable (IsLatin1 s) := by unfold IsLatin1; infer_instance
@@ -128,19 +129,19 @@ structure TEXt where
   text : String
   deriving DecidableEq
 
-/-- `OptCompressed` (text_metadata.rs:240-247) -/
+/-- `OptCompressed` (text_metadata.rs:245-252) -/
 inductive OptC
   | compressed (z : Bytes)
   | uncompressed (s : String)
   deriving DecidableEq
 
-/-- `ZTXtChunk` (text_metadata.rs:232-238) -/
+/-- `ZTXtChunk` (text_metadata.rs:237-243) -/
 structure ZTXt where
   keyword : String
   text : OptC
   deriving DecidableEq
 
-/-- `ITXtChunk` (text_metadata.rs:375-387) -/
+/-- `ITXtChunk` (text_metadata.rs:385-397) -/
 structure ITXt where
   keyword : String
   compressed : Bool
@@ -151,9 +152,9 @@ structure ITXt where
 
 /-- `TEXtChunk::new` (:190) -/
 def TEXt.new (kw text : String) : TEXt := ⟨kw, text⟩
-/-- `ZTXtChunk::new` (:251): the text starts out *uncompressed* -/
+/-- `ZTXtChunk::new` (:256): the text starts out *uncompressed* -/
 def ZTXt.new (kw text : String) : ZTXt := ⟨kw, .uncompressed text⟩
-/-- `ITXtChunk::new` (:391) -/
+/-- `ITXtChunk::new` (:401) -/
 def ITXt.new (kw text : String) : ITXt := ⟨kw, false, "", "", .uncompressed text⟩
 
 /-! ## `decode` functions of the three chunk types (text_metadata.rs) -/
@@ -166,7 +167,7 @@ def TEXt.decode (kw text : Bytes) : Except TextDecErr TEXt :=
   if badKeywordLen kw then .error .invalidKeywordSize
   else .ok ⟨decodeLatin1 kw, decodeLatin1 text⟩
 
-/-- `ZTXtChunk::decode` (text_metadata.rs:258-275) -/
+/-- `ZTXtChunk::decode` (text_metadata.rs:263-280) -/
 def ZTXt.decode (kw : Bytes) (method : UInt8) (text : Bytes) : Except TextDecErr ZTXt :=
   if badKeywordLen kw then .error .invalidKeywordSize
   else if method != 0 then .error .invalidCompressionMethod
@@ -177,9 +178,9 @@ inductive ITXtOut
   | ok (c : ITXt) | err (e : TextDecErr) | panic
   deriving DecidableEq
 
-/-- `ITXtChunk::decode` (text_metadata.rs:401-445).  Order of checks: keyword size (:409), flag
-(:414-418), method only if compressed (:420), language tag ASCII (:424), translated keyword UTF-8
-(:426-428), text UTF-8 only if not compressed (:429-436). -/
+/-- `ITXtChunk::decode` (text_metadata.rs:411-455).  Order of checks: keyword size (:419), flag
+(:424-428), method only if compressed (:430), language tag ASCII (:434), translated keyword UTF-8
+(:436-438), text UTF-8 only if not compressed (:439-446). -/
 def ITXt.decode (kw : Bytes) (flag method : UInt8) (lang tk text : Bytes) : ITXtOut :=
   if badKeywordLen kw then .err .invalidKeywordSize else
   let keyword := decodeLatin1 kw
@@ -295,7 +296,7 @@ def utf8Coding : Coding where
   dec := utf8Decode
   enc := fun s => some (utf8Encode s)
 
-/-- `decompress_text_with_limit` (zTXt: text_metadata.rs:283-302, iTXt: :453-475): new state and
+/-- `decompress_text_with_limit` (zTXt: text_metadata.rs:288-307, iTXt: :463-485): new state and
 result.  The state changes only on the path that reaches the assignment `self.text = …`. -/
 def OptC.decompressWithLimit (z : ZCodec) (k : Coding) (n : Nat) (t : OptC) :
     OptC × Except TextDecErr Unit :=
@@ -310,7 +311,7 @@ def OptC.decompressWithLimit (z : ZCodec) (k : Coding) (n : Nat) (t : OptC) :
       | some s => (.uncompressed s, .ok ())
   | .uncompressed _ => (t, .ok ())
 
-/-- `get_text` (zTXt: text_metadata.rs:306-315, iTXt: :479-489): unbounded inflation -/
+/-- `get_text` (zTXt: text_metadata.rs:311-320, iTXt: :489-499): unbounded inflation -/
 def OptC.getText (z : ZCodec) (k : Coding) (t : OptC) : Except TextDecErr String :=
   match t with
   | .compressed v =>
@@ -322,7 +323,7 @@ def OptC.getText (z : ZCodec) (k : Coding) (t : OptC) : Except TextDecErr String
       | some s => .ok s
   | .uncompressed s => .ok s
 
-/-- `compress_text` (zTXt: text_metadata.rs:318-336, iTXt: :492-510).  Writing to a `Vec` cannot
+/-- `compress_text` (zTXt: text_metadata.rs:323-341, iTXt: :502-520).  Writing to a `Vec` cannot
 fail, so `CompressionError` is not reachable here. -/
 def OptC.compress (z : ZCodec) (k : Coding) (t : OptC) : OptC × Except TextEncErr Unit :=
   match t with
@@ -335,7 +336,7 @@ def OptC.compress (z : ZCodec) (k : Coding) (t : OptC) : OptC × Except TextEncE
 def ZTXt.decompressWithLimit (z : ZCodec) (n : Nat) (c : ZTXt) : ZTXt × Except TextDecErr Unit :=
   let r := c.text.decompressWithLimit z latin1Coding n
   ({ c with text := r.1 }, r.2)
-/-- `ZTXtChunk::decompress_text` (:278-280) -/
+/-- `ZTXtChunk::decompress_text` (:283-285) -/
 def ZTXt.decompress (z : ZCodec) (c : ZTXt) := c.decompressWithLimit z decompressionLimit
 def ZTXt.getText (z : ZCodec) (c : ZTXt) : Except TextDecErr String := c.text.getText z latin1Coding
 def ZTXt.compress (z : ZCodec) (c : ZTXt) : ZTXt × Except TextEncErr Unit :=
@@ -345,7 +346,7 @@ def ZTXt.compress (z : ZCodec) (c : ZTXt) : ZTXt × Except TextEncErr Unit :=
 def ITXt.decompressWithLimit (z : ZCodec) (n : Nat) (c : ITXt) : ITXt × Except TextDecErr Unit :=
   let r := c.text.decompressWithLimit z utf8Coding n
   ({ c with text := r.1 }, r.2)
-/-- `ITXtChunk::decompress_text` (:448-450) -/
+/-- `ITXtChunk::decompress_text` (:458-460) -/
 def ITXt.decompress (z : ZCodec) (c : ITXt) := c.decompressWithLimit z decompressionLimit
 def ITXt.getText (z : ZCodec) (c : ITXt) : Except TextDecErr String := c.text.getText z utf8Coding
 def ITXt.compress (z : ZCodec) (c : ITXt) : ITXt × Except TextEncErr Unit :=
@@ -354,14 +355,21 @@ def ITXt.compress (z : ZCodec) (c : ITXt) : ITXt × Except TextEncErr Unit :=
 
 /-! ## `encode`: the chunk data written by `EncodableTextChunk::encode` -/
 
-/-- keyword bytes: `encode_iso_8859_1(&self.keyword)?` then the size check (:217-221, :341-345,
-:516-520) -/
+/-- `str::contains('\0')` (text_metadata.rs:551, :560) -/
+def strHasNul (s : String) : Bool := s.toList.any (fun (c : Char) => c.toNat == 0)
+
+/-- keyword bytes: `encode_iso_8859_1(&self.keyword)?`, then the size check, then the refusal of a
+zero byte — the keyword is NUL-terminated in the chunk, so it cannot contain one (:217-226, :346-355,
+:526-535; the third check is the repair of defect D16) -/
 def encodeKeyword (kw : String) : Except TextEncErr Bytes :=
   match encodeLatin1 kw with
   | .error e => .error e
-  | .ok data => if badKeywordLen data then .error .invalidKeywordSize else .ok data
+  | .ok data =>
+    if badKeywordLen data then .error .invalidKeywordSize
+    else if (0 : UInt8) ∈ data then .error .unrepresentable
+    else .ok data
 
-/-- `TEXtChunk::encode` (text_metadata.rs:216-228) -/
+/-- `TEXtChunk::encode` (text_metadata.rs:216-233) -/
 def TEXt.encodeBody (c : TEXt) : Except TextEncErr Bytes :=
   match encodeKeyword c.keyword with
   | .error e => .error e
@@ -370,7 +378,7 @@ def TEXt.encodeBody (c : TEXt) : Except TextEncErr Bytes :=
     | .error e => .error e
     | .ok t => .ok (data ++ 0 :: t)
 
-/-- `ZTXtChunk::encode` (text_metadata.rs:340-371): already compressed text is copied, uncompressed
+/-- `ZTXtChunk::encode` (text_metadata.rs:345-381): already compressed text is copied, uncompressed
 text is Latin-1 encoded and deflated behind the two bytes `0, 0` -/
 def ZTXt.encodeBody (z : ZCodec) (c : ZTXt) : Except TextEncErr Bytes :=
   match encodeKeyword c.keyword with
@@ -383,14 +391,16 @@ def ZTXt.encodeBody (z : ZCodec) (c : ZTXt) : Except TextEncErr Bytes :=
       | .error e => .error e
       | .ok raw => .ok (data ++ 0 :: 0 :: z.compress raw)
 
-/-- `ITXtChunk::encode` (text_metadata.rs:514-581).  With `compressed = false` and a text that is
-still in the `Compressed` state the payload is inflated (without a bound, :570) and written *as is*,
-without a UTF-8 check. -/
+/-- `ITXtChunk::encode` (text_metadata.rs:524-599).  Order of the refusals: keyword (Latin-1, size,
+NUL), language tag (`!is_ascii() || contains('\0')`, :551), translated keyword (`contains('\0')`,
+:560), then the text.  With `compressed = false` and a text that is still in the `Compressed` state
+the payload is inflated (without a bound, :588) and written *as is*, without a UTF-8 check. -/
 def ITXt.encodeBody (z : ZCodec) (c : ITXt) : Except TextEncErr Bytes :=
   match encodeKeyword c.keyword with
   | .error e => .error e
   | .ok data =>
-    if !isAsciiStr c.languageTag then .error .unrepresentable else
+    if !isAsciiStr c.languageTag || strHasNul c.languageTag then .error .unrepresentable else
+    if strHasNul c.translatedKeyword then .error .unrepresentable else
     let head := data ++ 0 :: (if c.compressed then 1 else 0) :: 0 ::
       (utf8Encode c.languageTag ++ 0 :: (utf8Encode c.translatedKeyword ++ [0]))
     if c.compressed then
